@@ -245,8 +245,8 @@ def run_property(prop, tier, seed, jobs, only=None):
         cov['rule'] = pm.get('bounded_rule', 'bounded stages: see coverage.bounded; labelled bounded, never counted in obligations/discharged')
     ev = dict(property_id=prop, tier=tier, seed=seed, level=level, coverage=cov,
               assumptions=sorted(assumptions), wall_s=round(wall, 2), violations=len(violations))
-    os.makedirs(os.path.join(ROOT, 'evidence'), exist_ok=True)
-    with open(os.path.join(ROOT, 'evidence', prop + '.json'), 'w') as f:
+    os.makedirs(os.path.join(D.OUTDIR, 'evidence'), exist_ok=True)
+    with open(os.path.join(D.OUTDIR, 'evidence', prop + '.json'), 'w') as f:
         json.dump(ev, f, indent=1, default=str)
     print('%s tier=%s: %d contracts, %d paths, %d/%d obligations discharged %s, concolic %s, bounded evaluations %d, %.1fs'
           % (prop, tier, len(results), paths, n_dis, n_obl, by_solver, concolic, b_eval, wall))
